@@ -30,9 +30,9 @@ E2_LOCALE = {"name": "e2-locale", "engine": "e2", "harness": ["locale.cc"], "rep
 MC = "model_checking"
 
 CHECKS = {
-    "C01": {"level": MC, "runs": [{"binary": E1_RESOURCE, "flavour": "plain"}, {"binary": E1_RESOURCE, "flavour": "asan", "args": ["--max-bound", "2"], "tiers": ["thorough"]}]},
-    "C02": {"level": MC, "runs": [{"binary": E1_RESOURCE, "flavour": "plain"}]},
-    "C03": {"level": MC, "runs": [{"binary": E1_RESOURCE, "flavour": "plain"}]},
+    "C01": {"level": MC, "runs": [{"binary": E1_RESOURCE, "flavour": "hooked"}, {"binary": E1_RESOURCE, "flavour": "asan", "args": ["--max-bound", "2"], "tiers": ["thorough"]}]},
+    "C02": {"level": MC, "runs": [{"binary": E1_RESOURCE, "flavour": "hooked"}]},
+    "C03": {"level": MC, "runs": [{"binary": E1_RESOURCE, "flavour": "hooked"}]},
     "C04": {"level": MC, "runs": [{"binary": E2_RING, "flavour": "asanub"}]},
     "C09": {"level": MC, "runs": [{"binary": E2_RING, "flavour": "asanub"}]},
     "C14": {"level": MC, "runs": [{"binary": E2_ARRAY, "flavour": "asanub"}]},
@@ -44,12 +44,12 @@ CHECKS = {
     "C17": {"level": MC, "runs": [{"binary": E2_FILE, "flavour": "asanub"}]},
     "C18": {"level": MC, "runs": [{"binary": E2_PATH, "flavour": "asanub"}]},
     "C19": {"level": MC, "runs": [{"binary": E2_LOCALE, "flavour": "asanub"}]},
-    "C07": {"level": MC, "runs": [{"binary": E1_POOL, "flavour": "plain"}, {"binary": E1_POOL, "flavour": "asan", "args": ["--max-bound", "2"]}]},
-    "C08": {"level": MC, "runs": [{"binary": E1_POOL, "flavour": "plain"}]},
+    "C07": {"level": MC, "runs": [{"binary": E1_POOL, "flavour": "hooked"}, {"binary": E1_POOL, "flavour": "asan", "args": ["--max-bound", "2"]}]},
+    "C08": {"level": MC, "runs": [{"binary": E1_POOL, "flavour": "hooked"}]},
     "C15": {"level": MC, "runs": [{"binary": E1_RACE, "flavour": "tsan"}]},
-    "C20": {"level": MC, "runs": [{"binary": E1_THREAD, "flavour": "plain"}, {"binary": E1_THREAD, "flavour": "asan"}]},
-    "C11": {"level": MC, "runs": [{"binary": E1_ROUTER, "flavour": "plain"}, {"binary": E1_ROUTER, "flavour": "asan", "args": ["--max-bound", "1"]}]},
-    "C12": {"level": MC, "runs": [{"binary": E1_RESOURCE, "flavour": "plain"}]},
+    "C20": {"level": MC, "runs": [{"binary": E1_THREAD, "flavour": "hooked"}, {"binary": E1_THREAD, "flavour": "asan"}]},
+    "C11": {"level": MC, "runs": [{"binary": E1_ROUTER, "flavour": "hooked"}, {"binary": E1_ROUTER, "flavour": "asan", "args": ["--max-bound", "1"]}]},
+    "C12": {"level": MC, "runs": [{"binary": E1_RESOURCE, "flavour": "hooked"}]},
 }
 
 _E2_NOTE = ("Trusted: the reference model (a few lines of std:: containers in the harness), AddressSanitizer/UBSan for the memory-safety half, the canonical state key read from the implementation's own fields "
